@@ -139,6 +139,14 @@ func (fr *FileReader) readNextBlock() (*Block, error) {
 	if err := blockHeader.Deserialize(headerBuf); err != nil {
 		return nil, err
 	}
+	// A block whose payload would extend beyond the end of the file is the torn tail of an
+	// interrupted write (or a forged size field): it marks the end of the readable data.
+	// Checking this first also keeps the allocation below bounded by the file size.
+	if fi, err := fr.file.Stat(); err == nil {
+		if int64(blockHeader.CompressedSize) > fi.Size()-offset-int64(BlockHeaderSize) {
+			return nil, io.EOF
+		}
+	}
 	// Read compressed data
 	compressedData := make([]byte, blockHeader.CompressedSize)
 	if _, err := io.ReadFull(fr.file, compressedData); err != nil {
